@@ -175,6 +175,38 @@ func (b *Body) pureClosureTerm(cl *Closure, args []*T, st State) (*T, bool) {
 func (b *Body) nativeCall(v ssa.Value, key string, c *ssa.CallCommon, args []*Val, blk *ssa.BasicBlock, reach *T, st State) bool {
 	ft := b.ft
 	switch key {
+	case "encoding/json.Unmarshal":
+		// the decoded value is a deterministic function of the input bytes and
+		// of the previous value of the target; err likewise
+		if len(args) != 2 {
+			return false
+		}
+		mi, ok := c.Args[1].(*ssa.MakeInterface)
+		if !ok {
+			return false
+		}
+		tv := b.val(mi.X)
+		ad := ft.addrOf(tv)
+		if ad == nil {
+			return false
+		}
+		cellSort := ad.RootSort
+		if len(ad.Path) > 0 {
+			cellSort = ad.Path[len(ad.Path)-1].Sort
+		}
+		fnName := "json.dec." + symSafe(cellSort)
+		if !ft.declared[fnName] {
+			ft.declared[fnName] = true
+			ft.decls = append(ft.decls, fmt.Sprintf("(declare-fun %s (Bytes %s) %s)", fnName, cellSort, cellSort),
+				fmt.Sprintf("(declare-fun %s.err (Bytes %s) Iface)", fnName, cellSort))
+		}
+		data := Sel(ft.region(st, "H.Bytes"), args[0].T)
+		old := ft.load(st, ad)
+		b.store(st, ad, A(fnName, data, old), blk)
+		r := b.declVal(v)
+		ft.fact(Eq(r.T, A(fnName+".err", data, old)))
+		ft.trusted["encoding/json.Unmarshal (modelled natively: decoded value and error are uninterpreted functions of the input bytes and the previous target value)"] = true
+		return true
 	case "slices.IndexFunc":
 		if len(args) != 2 || args[1].Clos == nil {
 			return false
